@@ -141,4 +141,31 @@ def respVerdict (out err : Bytes) (observed : ViewResult) : String :=
     | _ => "bad:response:the client got no response"
   | _ => "bad:case:intended response outside the modelled grammar"
 
+/-! ### the io.Reader contract of the response stream -/
+
+/-- empty data records (any type but stderr, no content) in the responder's bytes, as the
+reference decoder sees them, up to EndRequest or the first record it cannot decode.  A conforming
+responder sends exactly one: the empty stdout record that closes the stream. -/
+def emptyDataRecords : Nat → Bytes → Nat
+  | 0, _ => 0
+  | f + 1, w =>
+    match decodeRecord w with
+    | none => 0
+    | some (rec, rest) =>
+      if rec.typ = typeEndRequest then 0
+      else (if rec.typ != typeStderr && rec.content.isEmpty then 1 else 0) + emptyDataRecords f rest
+
+/-- The property for single `Read` calls on the response stream: with a non-empty buffer a call
+returns data or an error; it may return (0, nil) only when it has just taken an empty data record
+off the connection.  So over a whole conversation the calls without progress are at most the empty
+data records — however many stderr records the responder interleaves.  `zero…`: observed numbers of
+(0, nil) returns when the connection delivers the bytes in pieces and at once; `same`: both
+conversations delivered the same stdout, stderr and end. -/
+def readsVerdict (raw : Bytes) (zeroSplit zeroWhole : Nat) (same : Bool) : String :=
+  let allowed := emptyDataRecords (raw.length + 1) raw
+  if zeroSplit > allowed || zeroWhole > allowed then
+    "bad:no-progress:a Read with a non-empty buffer returned 0 bytes and no error without having consumed an empty data record"
+  else if !same then "bad:segmentation:the stream read depends on how the connection delivered the bytes"
+  else "ok"
+
 end Casket.FCGISpec
